@@ -161,26 +161,38 @@ fn base(name: &str, writes: Vec<(u8, usize)>) -> Params {
 
 pub fn c01(args: &Args) -> Vec<Scenario> {
     let t = args.thorough();
-    let b = if t { 3 } else { 2 };
+    // deviation bounds (quick, thorough): the back-to-back small-sample scenario is the cheapest per execution and gets the
+    // deepest bound
+    let b = if t { 4 } else { 3 };
+    let b2 = if t { 3 } else { 2 };
     let mut v = vec![];
     let f = 64usize;
     // small samples, one and two instances, back-to-back and spaced around the poke/heartbeat periods
     for gap in [0i64, 60, 250] {
         let mut p = base(&format!("C01.small[gap={gap}]"), vec![(1, 10), (1, 11), (2, 12)]);
         p.gap_ms = gap;
-        v.push(mk(p, if gap == 0 { b } else { b.min(2) }, t));
+        v.push(mk(p, if gap == 0 { b } else { b2 }, t));
     }
     // fragmented samples: sizes around multiples of the fragment size
     for (tag, sizes) in [("2f+1", vec![(1u8, 2 * f + 1), (1, 10)]), ("f-1,f,f+1", vec![(1, f - 30), (1, f - 29), (1, f - 28)]), ("3f", vec![(1, 3 * f - 20), (2, 8)])] {
         let mut p = base(&format!("C01.frag[{tag}]"), sizes);
         p.frag = f;
-        v.push(mk(p, 2, t));
+        v.push(mk(p, b2, t));
     }
     // KEEP_LAST writers
     for d in [1u32, 2] {
         let mut p = base(&format!("C01.keeplast[depth={d}]"), vec![(1, 10), (1, 11), (1, 12), (2, 13)]);
         p.w_hist = HistoryQosPolicyKind::KeepLast(d);
         p.gap_ms = 0;
+        v.push(mk(p, b2, t));
+    }
+    if t {
+        // longer histories at a lower bound
+        let mut p = base("C01.small[gap=0,writes=5]", vec![(1, 10), (1, 11), (2, 12), (1, 13), (2, 14)]);
+        p.gap_ms = 0;
+        v.push(mk(p, 2, t));
+        let mut p = base("C01.frag[4f+1,f]", vec![(1, 4 * f + 1), (2, f - 28), (1, 9)]);
+        p.frag = f;
         v.push(mk(p, 2, t));
     }
     v
@@ -188,7 +200,8 @@ pub fn c01(args: &Args) -> Vec<Scenario> {
 
 pub fn c02(args: &Args) -> Vec<Scenario> {
     let t = args.thorough();
-    let b = if t { 3 } else { 2 };
+    let b = if t { 6 } else { 4 };
+    let b2 = if t { 5 } else { 3 };
     let f = 64usize;
     let mut v = vec![];
     for w_rel in [true, false] {
@@ -201,7 +214,20 @@ pub fn c02(args: &Args) -> Vec<Scenario> {
         p.r_reliable = false;
         p.w_reliable = w_rel;
         p.frag = f;
-        v.push(mk(p, 2, t));
+        v.push(mk(p, b2, t));
+        // more and larger samples
+        let mut p = base(&format!("C02.mixed[wrel={w_rel}]"), vec![(1, 3 * f + 5), (2, 2 * f), (1, 10), (2, f - 28), (1, 11)]);
+        p.r_reliable = false;
+        p.w_reliable = w_rel;
+        p.frag = f;
+        v.push(mk(p, b2 - 1, t));
+        for gap in [60i64, 250] {
+            let mut p = base(&format!("C02.small[wrel={w_rel},gap={gap}]"), vec![(1, 10), (1, 11), (2, 12)]);
+            p.r_reliable = false;
+            p.w_reliable = w_rel;
+            p.gap_ms = gap;
+            v.push(mk(p, b2, t));
+        }
     }
     let _ = (MS, hist_name(&HistoryQosPolicyKind::KeepAll));
     v
